@@ -98,8 +98,12 @@ structure Con where
   cmAxes : List CmAx := []
   /-- coordinate reference: `coordinates()` -/
   coords : List Key := []
-  /-- coordinate reference: the values of `coordinate_conversion.domain_ancillaries()` -/
+  /-- coordinate reference: the values of `coordinate_conversion.domain_ancillaries()`, in dictionary order
+  (any list: the same key may be the value of several terms) -/
   ancils : List (Option Key) := []
+  /-- coordinate reference: the terms (the dictionary keys) of `domain_ancillaries()`, in the same order:
+  the term → key map is `terms.zip ancils` -/
+  terms : List String := []
   deriving DecidableEq, Repr
 
 /-- `construct.shape` (`none` = `AttributeError`):
@@ -448,7 +452,8 @@ def transCon (c : Con) (ix : List Nat) : Option Con :=
     | some d', some b', some r' => some { c with data := some d', bounds := b', ring := r' }
     | _, _, _ => none
 
-/-- domain topology and cell connectivity constructs are outside the model -/
+/-- the constructs whose data `insert_dimension` / `transpose` reshape (for a domain topology or cell
+connectivity `insert_dimension(constructs=True)` always fails cfdm's own shape check, `transpose` is the identity) -/
 def modelled (t : CType) : Bool := t.isArray && t != .top && t != .con
 
 /-- one step of the loop over `f.constructs.filter_by_data()` in `Field.transpose` -/
@@ -461,6 +466,8 @@ def transOne (s : St) (p : CType × Key) : Option St :=
     | none => some s
     | some d =>
       if d.length < 2 then some s else
+      -- a domain topology / cell connectivity spans one axis: `Topology.transpose([0])` changes nothing
+      if p.1 == .top || p.1 == .con then (if (s.caxes.get p.2).isSome && s.dataAxes.isSome then some s else none) else
       if !modelled p.1 then none else
       match s.caxes.get p.2, s.dataAxes with
       | some cax, some nda =>
@@ -610,7 +617,8 @@ def subOne (pt : Bool) (A : List Key) (ns : List Nat) (s : St) (p : CType × Key
   match s.caxes.get p.2, s.cons.get p with
   | some cax, some c =>
     if !(cax.any (fun a => A.contains a)) then some s else
-    if !modelled p.1 then none else
+    -- `construct[tuple(dice)]` of a domain axis / cell method / coordinate reference raises
+    if !p.1.isArray then none else
     -- `construct[tuple(dice)]` evaluates `construct.shape`
     match c.shape p.1 with
     | none => none
